@@ -19,6 +19,7 @@ import (
 	"io"
 	"os"
 	"os/exec"
+	"path/filepath"
 	"sort"
 	"strings"
 	"time"
@@ -248,6 +249,26 @@ func main() {
 		}
 		f(c, rp.Disagreement)
 	} else {
+		// corpus first: minimised past failures (and the pre-repair witnesses of the known findings)
+		if dir := os.Getenv("VERIF_DIR"); dir != "" {
+			files, _ := filepath.Glob(filepath.Join(dir, "corpus", *prop, "*.json"))
+			sort.Strings(files)
+			for _, fn := range files {
+				raw, err := os.ReadFile(fn)
+				if err != nil {
+					continue
+				}
+				var rp struct {
+					Disagreement Disagreement `json:"disagreement"`
+				}
+				if json.Unmarshal(raw, &rp) == nil && rp.Disagreement.Request != "" {
+					if f, ok := replayers[*prop]; ok {
+						rp.Disagreement.Class = "corpus/" + filepath.Base(fn)
+						f(c, rp.Disagreement)
+					}
+				}
+			}
+		}
 		run(c)
 	}
 	res.DriverCalls = drv.n
